@@ -11,6 +11,8 @@ from hypothesis import strategies as st
 from kappadata.datasets import KDDataset
 from vlib.core import Case, CaseTimeout, Facet, Refused, Violation
 
+# thorough-tier budgets of every facet are multiplied by this factor (sized for ~5-8 min on 16 cores)
+THOROUGH_SCALE = 4
 LEVEL = "exploration"
 RULE = ("spec = explicit class layout (n 0..48, C 1..8; uniform / blocks / dominant / absent / single-sample classes; -1 only for "
         "OversamplingWrapper(multiply)) + wrapper arguments on and off integer boundaries (percents from {0,1,k/n,k/n+-eps,any}, "
